@@ -86,6 +86,7 @@ type c36Sys struct {
 	data   [][]byte
 	num    map[cid.Cid]int
 	outbox bool
+	dead   bool // an engine call panicked
 	nextCh <-chan *Envelope // outbox mode: requested envelope channel (worker may be parked on it)
 	parked bool
 }
@@ -161,6 +162,9 @@ func c36New(cfg c36Cfg, np, nc int, bs0 []int, outbox bool) *c36Sys {
 }
 
 func (s *c36Sys) close() {
+	if s.dead {
+		return // a crashed engine may hold its locks: leak it
+	}
 	s.e.Close()
 }
 
@@ -239,9 +243,32 @@ func (s *c36Sys) recv(st c36Step) {
 		}
 		m.AddEntry(k, int32(e[1].(float64)), wt, e[4].(bool))
 	}
-	kill := s.e.MessageReceived(context.Background(), s.peer(st.P), &c36Msg{BitSwapMessage: m, order: order})
+	kill := false
+	pn := c36Safe(func() {
+		kill = s.e.MessageReceived(context.Background(), s.peer(st.P), &c36Msg{BitSwapMessage: m, order: order})
+	})
+	if pn != "" { // the engine crashed on this message (and may hold its lock): report, give up the run
+		s.dead = true
+		vEmit(M{"ev": "Recv", "p": st.P, "full": st.Full, "es": st.Es, "wl": [][]any{}, "pend": [][]int{}, "pk": false,
+			"kill": false, "panic": pn})
+		return
+	}
 	vEmit(M{"ev": "Recv", "p": st.P, "full": st.Full, "es": st.Es, "wl": s.allWl(), "pend": s.allPend(),
-		"pk": s.parked, "kill": kill})
+		"pk": s.parked, "kill": kill, "panic": ""})
+}
+
+// c36Safe runs an engine call and returns the panic message, if any.
+func c36Safe(f func()) (msg string) {
+	defer func() {
+		if r := recover(); r != nil {
+			msg = fmt.Sprint(r)
+			if msg == "" {
+				msg = "panic"
+			}
+		}
+	}()
+	f()
+	return ""
 }
 
 func (s *c36Sys) add(c int) {
@@ -358,6 +385,9 @@ func (s *c36Sys) drain() {
 
 func (s *c36Sys) run(b c36Beh, forceDrain bool) {
 	for _, st := range b.Steps {
+		if s.dead {
+			return
+		}
 		switch st.Op {
 		case "Recv":
 			s.recv(st)
@@ -371,11 +401,13 @@ func (s *c36Sys) run(b c36Beh, forceDrain bool) {
 		default:
 			panic("c36: op " + st.Op)
 		}
-		if (forceDrain || s.parked) && st.Op != "Remove" {
+		if (forceDrain || s.parked) && st.Op != "Remove" && !s.dead {
 			s.drain()
 		}
 	}
-	s.drain()
+	if !s.dead {
+		s.drain()
+	}
 }
 
 func c36Reset(b c36Beh, i int) {
